@@ -1,8 +1,469 @@
-//! stub — to be implemented
-use crate::common::{Ctx, Report};
+//! C13 — backends see the client's request plus truthful, unspoofable proxy metadata.
+//!
+//! Worker lab. Per cell: one sozu worker with HTTP / HTTPS listeners (plus `expect_proxy` twins and
+//! `[::1]` twins) sharing randomly drawn listener settings (elide/send X-Real-IP, correlation header
+//! name, sticky cookie name, listener-default HSTS), four clusters ({H1, h2c} backends x sticky
+//! on/off) behind four frontend variants (plain, header edits, host+path rewrite, per-frontend
+//! HSTS), recording backends, and H1/TCP, H1/TLS, H2/TLS clients connecting from chosen source
+//! addresses or announcing one through PROXY protocol v2. Oracle: ordered-multiset comparison of
+//! the list the backend recorded with f(client list), f being the transformation table of
+//! `c13_headers/oracle.rs` (written from the statement and doc/configure.md), and the same for the
+//! response direction.
 
-pub fn run(_ctx: &Ctx) -> Report {
-    let mut rep = Report::new("exploration", "not implemented");
-    rep.broken("check not implemented yet");
+mod generator;
+mod io;
+mod model;
+mod oracle;
+
+use std::{
+    net::{IpAddr, Ipv6Addr, SocketAddr},
+    sync::{Arc, Mutex, atomic::AtomicU64},
+    time::Duration,
+};
+
+use serde_json::{Value, json};
+use sozu_command_lib::{
+    config::{FileHstsConfig, ListenerBuilder},
+    proto::command::{AddBackend, Cluster, Header, HeaderPosition, HstsConfig, LoadBalancingParams, request::RequestType},
+};
+
+use self::{generator::*, io::*, model::*, oracle::Judge};
+use crate::{
+    common::{Ctx, Report, Rng, par_cases, rng::fnv1a},
+    lab::{self, Worker, WorkerOpts},
+};
+
+fn hsts_file(p: &HstsPolicy) -> FileHstsConfig {
+    FileHstsConfig { enabled: Some(true), max_age: Some(p.max_age), include_subdomains: Some(p.include_sub), preload: Some(p.preload), force_replace_backend: None }
+}
+
+fn tweak(cfg: &CellCfg, b: &mut ListenerBuilder, https: bool, expect_proxy: bool) {
+    b.elide_x_real_ip = Some(cfg.elide);
+    b.send_x_real_ip = Some(cfg.send);
+    if cfg.corr_custom {
+        b.sozu_id_header = Some(cfg.corr_name.clone());
+    }
+    if cfg.sticky_custom {
+        b.sticky_name = cfg.sticky_name.clone();
+    }
+    if expect_proxy {
+        b.expect_proxy = Some(true);
+    }
+    if https {
+        b.hsts = cfg.listener_hsts.as_ref().map(hsts_file);
+        b.alpn_protocols = Some(vec!["h2".to_owned(), "http/1.1".to_owned()]);
+    }
+}
+
+struct ListenerDef {
+    addr: SocketAddr,
+    https: bool,
+}
+
+fn add_frontends(w: &mut Worker, l: &ListenerDef) -> bool {
+    for c in &CLUSTERS {
+        for v in Variant::ALL {
+            if v == Variant::Hsts && !l.https {
+                continue;
+            }
+            let mut f = Worker::http_frontend(c.id, l.addr, &hostname(v, c), "/");
+            match v {
+                Variant::Plain => {}
+                Variant::Edit => {
+                    f.headers = vec![
+                        Header { position: HeaderPosition::Request as i32, key: EDIT_ADD.0.into(), val: EDIT_ADD.1.into() },
+                        Header { position: HeaderPosition::Request as i32, key: EDIT_DEL.into(), val: String::new() },
+                        Header { position: HeaderPosition::Response as i32, key: RESP_ADD.0.into(), val: RESP_ADD.1.into() },
+                        Header { position: HeaderPosition::Response as i32, key: RESP_DEL.into(), val: String::new() },
+                    ];
+                    if l.https {
+                        f.hsts = Some(HstsConfig { enabled: Some(false), ..Default::default() });
+                    }
+                }
+                Variant::Rw => {
+                    f.rewrite_host = Some(rewrite_host(c));
+                    f.rewrite_path = Some(rewrite_path(c));
+                }
+                Variant::Hsts => {
+                    f.hsts = Some(HstsConfig {
+                        enabled: Some(true),
+                        max_age: Some(FRONTEND_HSTS.max_age),
+                        include_subdomains: Some(FRONTEND_HSTS.include_sub),
+                        preload: Some(FRONTEND_HSTS.preload),
+                        force_replace_backend: None,
+                    });
+                }
+            }
+            let ok = if l.https { w.add_https_frontend(f) } else { w.add_http_frontend(f) };
+            if !ok {
+                return false;
+            }
+        }
+    }
+    true
+}
+
+fn v6(port: u16) -> SocketAddr {
+    SocketAddr::new(IpAddr::V6(Ipv6Addr::LOCALHOST), port)
+}
+
+fn run_cell(ctx: &Ctx, cell: u64, rep: &mut Report) {
+    let mut rng = Rng::for_case(ctx.seed, 13, cell);
+    let ip = lab::fresh_ip();
+    let mut cfg = gen_cell(&mut rng, cell, ip);
+    let n_requests = ctx.opt_u64("reqs", ctx.tier.pick(150, 450));
+
+    let shared = Arc::new(Shared {
+        seed: ctx.seed,
+        cell,
+        corr_name: cfg.corr_name.clone(),
+        sticky_name: cfg.sticky_name.clone(),
+        records: Mutex::new(Vec::new()),
+        serial: AtomicU64::new(0),
+        backend_errors: Mutex::new(Vec::new()),
+    });
+    let back_h1 = lab::sa(ip, 9000);
+    let back_h2 = lab::sa(ip, 9001);
+    let (_b1, _b2) = match (start_h1_backend(back_h1, shared.clone()), start_h2_backend(back_h2, shared.clone())) {
+        (Ok(a), Ok(b)) => (a, b),
+        (a, b) => {
+            rep.inconclusive("could not start the recording backends");
+            rep.obs("cell_setup_failed", 1);
+            let _ = (a.is_ok(), b.is_ok());
+            return;
+        }
+    };
+
+    let mut w = Worker::start(WorkerOpts::default());
+    let cert = std::fs::read_to_string("/repo/lib/assets/certificate.pem").unwrap_or_default();
+    let key = std::fs::read_to_string("/repo/lib/assets/key.pem").unwrap_or_default();
+    let names: Vec<String> = CLUSTERS.iter().flat_map(|c| Variant::ALL.iter().map(move |v| hostname(*v, c))).collect();
+
+    let l_http = lab::sa(ip, 8080);
+    let l_https = lab::sa(ip, 8443);
+    let l_http_pp = lab::sa(ip, 8081);
+    let l_https_pp = lab::sa(ip, 8444);
+    let mut ok = w.add_http_listener(l_http, |b| tweak(&cfg, b, false, false))
+        && w.add_https_listener(l_https, |b| tweak(&cfg, b, true, false))
+        && w.add_http_listener(l_http_pp, |b| tweak(&cfg, b, false, true))
+        && w.add_https_listener(l_https_pp, |b| tweak(&cfg, b, true, true));
+    let mut listeners = vec![
+        ListenerDef { addr: l_http, https: false },
+        ListenerDef { addr: l_https, https: true },
+        ListenerDef { addr: l_http_pp, https: false },
+        ListenerDef { addr: l_https_pp, https: true },
+    ];
+    // IPv6 twins on [::1] (ports drawn per cell; a busy port just drops the IPv6 lanes of this cell)
+    if ok {
+        for _ in 0..4 {
+            let p = 10_000 + 2 * rng.range(0, 25_000) as u16;
+            if w.add_http_listener(v6(p), |b| tweak(&cfg, b, false, false)) {
+                if w.add_https_listener(v6(p + 1), |b| tweak(&cfg, b, true, false)) {
+                    cfg.v6_ports = Some((p, p + 1));
+                    listeners.push(ListenerDef { addr: v6(p), https: false });
+                    listeners.push(ListenerDef { addr: v6(p + 1), https: true });
+                    break;
+                }
+                rep.obs("v6_https_port_busy_http_listener_left_unused", 1);
+            }
+        }
+        if cfg.v6_ports.is_none() {
+            rep.obs("cells_without_ipv6_listeners", 1);
+        }
+    }
+    for c in &CLUSTERS {
+        ok = ok
+            && w.add_cluster(Cluster { cluster_id: c.id.into(), sticky_session: c.sticky, http2: (c.back == Back::H2).then_some(true), ..Default::default() })
+            && w.ok(RequestType::AddBackend(AddBackend {
+                cluster_id: c.id.into(),
+                backend_id: format!("b-{}", c.id),
+                address: (if c.back == Back::H1 { back_h1 } else { back_h2 }).into(),
+                load_balancing_parameters: Some(LoadBalancingParams::default()),
+                sticky_id: Some(sticky_id(c)),
+                backup: None,
+            }));
+    }
+    for l in &listeners {
+        ok = ok && add_frontends(&mut w, l);
+        if l.https {
+            ok = ok && w.add_certificate(l.addr, &cert, vec![], &key, names.clone());
+        }
+    }
+    if !ok {
+        rep.inconclusive("sozu refused the cell configuration");
+        rep.obs("cell_setup_failed", 1);
+        let _ = w.stop();
+        return;
+    }
+    rep.obs("cells", 1);
+    rep.obs(&format!("cells_setting/custom_correlation_name={}", cfg.corr_custom), 1);
+    rep.obs(&format!("cells_setting/custom_sticky_name={}", cfg.sticky_custom), 1);
+    rep.obs(&format!("cells_setting/listener_hsts={}", cfg.listener_hsts.is_some()), 1);
+
+    // lanes: front x peer mode
+    let mut lanes: Vec<Lane> = Vec::new();
+    for front in Front::ALL {
+        let https = front.is_tls();
+        lanes.push(Lane { front, mode: PeerMode::V4(random_source_v4(&mut rng)), target: if https { l_https } else { l_http }, conn: None, truth: None, uses_left: 0, io_wait: IO_WAIT });
+        lanes.push(Lane { front, mode: PeerMode::Proxy(random_announced(&mut rng)), target: if https { l_https_pp } else { l_http_pp }, conn: None, truth: None, uses_left: 0, io_wait: IO_WAIT });
+        if let Some((p, ps)) = cfg.v6_ports {
+            lanes.push(Lane { front, mode: PeerMode::V6, target: v6(if https { ps } else { p }), conn: None, truth: None, uses_left: 0, io_wait: IO_WAIT });
+        }
+    }
+    let sni = hostname(Variant::Plain, &CLUSTERS[0]);
+
+    // by-product evidence (not a C13 verdict): an H1 request without Content-Length / Transfer-Encoding
+    // towards an h2c backend; the workload below always announces `Content-Length: 0` instead
+    if cell % 8 == 0 {
+        let mut probe = Lane { front: Front::H1Tcp, mode: PeerMode::V4(random_source_v4(&mut rng)), target: l_http, conn: None, truth: None, uses_left: 1, io_wait: Duration::from_millis(1500) };
+        let spec = ReqSpec { index: u64::MAX, front: Front::H1Tcp, cluster: 2, variant: Variant::Plain, method: "GET".into(), authority: hostname(Variant::Plain, &CLUSTERS[2]), path: "/probe".into(),
+            headers: Vec::new(), body: Body::None, host_last: false, tags: Vec::new() };
+        if probe.ensure(&sni).is_ok() {
+            match probe.exchange(&spec) {
+                Ok(o) => rep.obs(&format!("evidence/h1_request_without_framing_to_h2c_backend/answered_{}", o.status), 1),
+                Err(ExchangeError::Timeout(_)) => rep.obs("evidence/h1_request_without_framing_to_h2c_backend/unanswered_after_1500ms", 1),
+                Err(_) => rep.obs("evidence/h1_request_without_framing_to_h2c_backend/connection_closed", 1),
+            }
+        }
+        probe.drop_conn();
+        shared.records.lock().unwrap().clear();
+    }
+    let mut sampled = false;
+    let mut seen_ids: std::collections::HashSet<Vec<u8>> = Default::default();
+
+    for index in 0..n_requests {
+        if ctx.out_of_time() && ctx.replay.is_none() {
+            rep.obs("requests_not_started_budget_exhausted", n_requests - index);
+            break;
+        }
+        let mut li = rng.usize_below(lanes.len());
+        if let Some(f) = ctx.opt("only_front") {
+            if let Some(k) = lanes.iter().position(|l| l.front.name() == f) {
+                li = k + li % (lanes.len() / 3);
+            }
+        }
+        let lane = &mut lanes[li];
+        if lane.conn.is_none() {
+            // a fresh connection: new source address / announced source
+            lane.mode = match lane.mode {
+                PeerMode::V4(_) => PeerMode::V4(random_source_v4(&mut rng)),
+                PeerMode::V6 => PeerMode::V6,
+                PeerMode::Proxy(_) => PeerMode::Proxy(random_announced(&mut rng)),
+            };
+            lane.uses_left = rng.range(3, 25) as u32;
+        }
+        let mut spec = gen_request(&mut rng, &cfg, index, lane.front);
+        if let Some(c) = ctx.opt("only_cluster") {
+            if let Some(k) = CLUSTERS.iter().position(|d| d.id == c) {
+                spec.cluster = k;
+                spec.authority = hostname(spec.variant, &CLUSTERS[k]);
+            }
+        }
+        let cdef = &CLUSTERS[spec.cluster];
+        let pair = format!("{}-{}", spec.front.short(), cdef.back.short());
+        let mut shape: Vec<String> = vec![spec.front.name().into(), cdef.id.into(), spec.variant.name().into(), lane.mode.name().into()];
+        let mut tags = spec.tags.clone();
+        tags.sort();
+        tags.dedup();
+        shape.extend(tags.iter().map(|t| t.to_string()));
+        let fp = fnv1a(shape.join("|").as_bytes());
+
+        if let Err(e) = lane.ensure(&sni) {
+            rep.inconclusive(&format!("client setup: {}", short_err(&e)));
+            rep.case(fp, false);
+            lane.drop_conn();
+            continue;
+        }
+        let truth = lane.truth.clone().expect("lane truth");
+        let before = shared.records.lock().unwrap().len();
+        let errs_before = shared.backend_errors.lock().unwrap().len();
+        let result = lane.exchange(&spec);
+        let new_errs: Vec<String> = shared.backend_errors.lock().unwrap().iter().skip(errs_before).cloned().collect();
+        if !spec.trailers().is_empty() {
+            rep.obs(&format!("trailer_attempts/{pair}"), 1);
+        }
+        let new: Vec<Record> = shared.records.lock().unwrap()[before..].to_vec();
+        rep.obs(&format!("requests/{}-{}", spec.front.name(), cdef.back.short()), 1);
+        if ctx.opt("debug").is_some() {
+            eprintln!("[c13] cell {cell} req {index} {} {} {} {} {} tags={:?} -> {} new_records={} resp_of_last={:?}", spec.front.name(), lane_mode_name(&truth), cdef.id, spec.variant.name(), spec.method, spec.tags,
+                match &result { Ok(o) => format!("status {}", o.status), Err(ExchangeError::Malformed(w, _)) => format!("Malformed({w})"), Err(e) => format!("{e:?}") }, new.len(),
+                new.last().map(|r| (r.serial, r.resp.status, r.resp.body_len, r.resp.chunked, r.resp.trailers.len())));
+        }
+
+        let base_witness = |detail: Value| {
+            json!({"case": cell, "seed": ctx.seed, "request_index": index, "cell": cfg.describe(), "front": spec.front.name(), "backend": cdef.back.short(),
+                "cluster": cdef.id, "variant": spec.variant.name(),
+                "client_request": {"method": spec.method, "authority": spec.authority, "path": spec.path, "headers": fields_json(&spec.headers), "trailers": fields_json(spec.trailers())},
+                "detail": detail})
+        };
+        if !new_errs.is_empty() || new.is_empty() {
+            // sozu tends to close the front connection after its own error answers
+            lanes[li].drop_conn();
+        }
+        if !new_errs.is_empty() && cdef.back == Back::H1 {
+            // the strict-enough H1 reader of the backend could not parse what sozu wrote
+            let sig = if spec.front.is_h2() && !spec.trailers().is_empty() { "headers/h2_trailers_to_h1_malformed_chunked/request".to_owned() } else { format!("headers/unparsable_request_at_backend/{pair}") };
+            rep.violation(&sig, &format!("the H1 backend cannot parse the request sozu wrote: {}", new_errs[0]), base_witness(json!({"backend_error": new_errs})));
+            rep.case(fp, true);
+            continue;
+        }
+        let obs = match result {
+            Ok(o) => o,
+            Err(ExchangeError::Timeout(t)) => {
+                rep.inconclusive(&format!("watchdog: {}", t.split(':').next().unwrap_or("timeout")));
+                rep.case(fp, false);
+                continue;
+            }
+            Err(ExchangeError::Setup(t)) => {
+                rep.inconclusive(&format!("client setup: {}", t.split(':').next().unwrap_or("")));
+                rep.case(fp, false);
+                continue;
+            }
+            Err(ExchangeError::Refused(code)) => {
+                rep.obs(&format!("not_forwarded/h2_stream_refused_code_{code}"), 1);
+                note_refusal(rep, &spec);
+                rep.case(fp, false);
+                continue;
+            }
+            Err(ExchangeError::Malformed(why, raw)) => {
+                let with_trailers = new.last().is_some_and(|r| !r.resp.trailers.is_empty() && r.back == Back::H2);
+                let sig = if with_trailers { "headers/h2_trailers_to_h1_malformed_chunked/response".to_owned() } else { format!("headers/unparsable_response/{pair}") };
+                rep.violation(&sig, &format!("the H1 response sozu wrote cannot be parsed: {why}"), base_witness(json!({"parse_error": why, "raw_tail": show(&raw[raw.len().saturating_sub(150)..]),
+                    "backend_sent": new.last().map(|r| json!({"status": r.resp.status, "headers": fields_json(&r.resp.headers), "trailers": fields_json(&r.resp.trailers), "body_len": r.resp.body_len}))})));
+                if ctx.opt("debug").is_some() {
+                    eprintln!("[c13] malformed response ({why}): {}", show(&raw[raw.len().saturating_sub(150)..]));
+                }
+                rep.case(fp, false);
+                continue;
+            }
+            Err(ExchangeError::Closed(_)) => {
+                rep.obs("not_forwarded/connection_closed", 1);
+                note_refusal(rep, &spec);
+                rep.case(fp, false);
+                continue;
+            }
+        };
+        if new.is_empty() {
+            // sozu answered by itself (400, 404, 421 ...): exactly-once answers are C02's business
+            rep.obs(&format!("not_forwarded/status_{}", obs.status), 1);
+            note_refusal(rep, &spec);
+            rep.case(fp, false);
+            continue;
+        }
+        if new.len() > 1 {
+            rep.obs("requests_seen_more_than_once_by_backends", 1);
+        }
+        let rec = new.last().unwrap();
+        // (by-product finding, C02's business: the 2nd request of an H1 keep-alive connection towards
+        // an h2c backend is answered 502 although the backend answered; most H1->h2c exchanges
+        // therefore get a fresh connection so that the response direction stays observable)
+        if !spec.front.is_h2() && cdef.back == Back::H2 && rng.chance(4, 5) {
+            lanes[li].drop_conn();
+        }
+        // documented: "each request gets a unique ULID"; not part of the statement => evidence only
+        if let Some(id) = values_of(&rec.headers, &cfg.corr_name).last() {
+            if !seen_ids.insert(id.to_vec()) {
+                rep.obs("evidence/correlation_id_reused_by_a_later_request", 1);
+            }
+        }
+        let own_answer = obs.status != rec.resp.status && !has_name(&obs.headers, "x-vh-rec");
+        rep.obs(&format!("forwarded/{pair}"), 1);
+        rep.obs(&format!("forwarded_variant/{}", spec.variant.name()), 1);
+        let mut j = Judge { rep, seed: ctx.seed, cfg: &cfg, spec: &spec, truth: &truth, rec, obs: &obs, pair: pair.clone(), own_answer, violations: 0 };
+        j.request();
+        if own_answer {
+            // the backend answered, the client got an answer made by sozu (502/503/504 ...): C02's business
+            j.rep.obs(&format!("response_replaced_by_sozu_answer/status_{}", obs.status), 1);
+        } else {
+            j.response();
+        }
+        let bad = j.violations;
+        rep.case(fp, true);
+        if bad == 0 {
+            rep.obs("requests_held", 1);
+        }
+        if !sampled && index >= 3 && cell == 0 {
+            sampled = true;
+            rep.sample(json!({"cell": cfg.describe(), "front": spec.front.name(), "cluster": cdef.id, "variant": spec.variant.name(),
+                "client_headers": fields_json(&spec.headers), "client_trailers": fields_json(spec.trailers()),
+                "backend_received": fields_json(&rec.headers), "backend_trailers": fields_json(&rec.trailers),
+                "backend_sent": fields_json(&rec.resp.headers), "client_received": fields_json(&obs.headers)}));
+        }
+    }
+
+    for l in lanes.iter_mut() {
+        l.drop_conn();
+    }
+    let panics = w.stop();
+    for p in panics {
+        if p.in_sozu() {
+            rep.violation(&p.signature(), &format!("sozu worker panicked: {} at {}", p.message, p.location), json!({"case": cell, "seed": ctx.seed, "cell": cfg.describe(), "panic": p.message, "location": p.location}));
+        } else {
+            rep.broken(&format!("worker thread panic outside sozu: {} at {}", p.message, p.location));
+        }
+    }
+    let errs = shared.backend_errors.lock().unwrap();
+    if !errs.is_empty() {
+        rep.obs("backend_side_errors", errs.len() as u64);
+        rep.set("backend_side_errors_sample", json!(errs.iter().take(3).collect::<Vec<_>>()));
+    }
+}
+
+fn lane_mode_name(t: &PeerTruth) -> &'static str {
+    t.mode
+}
+
+fn short_err(e: &ExchangeError) -> String {
+    match e {
+        ExchangeError::Setup(t) | ExchangeError::Closed(t) | ExchangeError::Timeout(t) | ExchangeError::Malformed(t, _) => t.split(':').next().unwrap_or("").to_owned(),
+        ExchangeError::Refused(c) => format!("refused {c}"),
+    }
+}
+
+/// which generator feature most likely made sozu refuse the request (evidence only)
+fn note_refusal(rep: &mut Report, spec: &ReqSpec) {
+    for t in ["v:obs", "v:empty", "v:long", "cookie:malformed", "hop", "te:trailers", "trailers", "host:upper"] {
+        if spec.tags.contains(&t) {
+            rep.obs(&format!("not_forwarded_with_feature/{t}"), 1);
+        }
+    }
+}
+
+pub fn run(ctx: &Ctx) -> Report {
+    let mut rep = Report::new(
+        "exploration",
+        "cells = (listener settings: elide/send X-Real-IP, correlation header name, sticky name, listener HSTS) x requests drawn from a header-list grammar (ordinary/near-miss/random names in mixed case, empty/long/obs-text/quoted/comma values, duplicates, cookies with the sticky cookie first/middle/last, hop-by-hop and Connection-listed fields, client-supplied X-Forwarded-For/Forwarded/X-Forwarded-Proto/Port/X-Real-IP/X-Request-Id/correlation header single and duplicated, the same names in trailers) x {H1/TCP, H1/TLS, H2/TLS} x {H1, h2c} backends x sticky on/off x frontend variants {plain, header edits, rewrite, HSTS} x peer {127.x.y.z, ::1, PROXY v2 IPv4/IPv6}; one evaluation = one request; non-trivial = forwarded to a recording backend and compared in both directions; distinct = distinct (front, cluster, variant, peer mode, feature tags)",
+    );
+    rep.assume("hop-by-hop fields (Connection, Keep-Alive, Proxy-Connection, TE, Transfer-Encoding, Upgrade, fields named in Connection), Content-Length and Trailer are not compared (only: never inside HTTP/2)");
+    rep.assume("requests sozu answers itself (400/404/421, refused H2 streams) are counted, not judged (C02/C03)");
+    rep.assume("where doc/configure.md is silent (client-supplied X-Forwarded-Proto/Port next to a proxy value, client X-Request-Id kept or replaced, sticky-named cookie on a non-sticky cluster, cookie pairs without '=', trailers dropped in conversion) every outcome is accepted and counted under exempt/*");
+    for k in [
+        "forwarded/h1-h1", "forwarded/h1-h2", "forwarded/h2-h1", "forwarded/h2-h2",
+        "requests/h1tcp-h1", "requests/h1tls-h1", "requests/h2tls-h1", "requests/h1tcp-h2", "requests/h1tls-h2", "requests/h2tls-h2",
+        "fields_compared", "response_fields_compared", "cookie_pairs_compared", "sticky_removed",
+        "xff_checked", "forwarded_checked", "x_real_ip_injected_checked", "x_real_ip_elision_checked",
+        "x-forwarded-proto_describes_listener_checked", "x-forwarded-port_describes_listener_checked",
+        "spoof_attempts/x-forwarded-for", "spoof_attempts/x-forwarded-for/duplicated", "spoof_attempts/forwarded", "spoof_attempts/x-real-ip",
+        "spoof_attempts/x-request-id", "spoof_attempts/x-request-id/duplicated", "spoof_attempts/correlation", "spoof_attempts/correlation/custom_name",
+        "trailer_cases/h1-h1", "trailer_cases/h1-h2", "trailer_cases/h2-h2", "trailer_attempts/h2-h1", "trailer_identity_attempts/correlation",
+        "peer_mode/v4", "peer_mode/proxy4", "peer_mode/proxy6",
+        "hsts_expected_seen", "hsts_absent_on_plaintext", "edit_add_checked", "edit_del_checked", "edit_response_add_checked", "rewrite_checked",
+        "connection_listed_towards_h2_checked", "response_correlation_checked",
+    ] {
+        rep.require(k);
+    }
+    lab::raise_fd_limit();
+    if let Some(path) = &ctx.replay {
+        let v: Value = serde_json::from_str(&std::fs::read_to_string(path).unwrap_or_default()).unwrap_or(Value::Null);
+        let mut cases: Vec<u64> = v["witnesses"].as_array().map(|a| a.iter().filter_map(|w| w["case"].as_u64()).collect()).unwrap_or_default();
+        cases.sort();
+        cases.dedup();
+        for c in cases {
+            run_cell(ctx, c, &mut rep);
+        }
+        return rep;
+    }
+    let n = ctx.opt_u64("cells", ctx.tier.pick(48, 480));
+    par_cases(ctx, &mut rep, n, |i, r| run_cell(ctx, i, r));
     rep
 }
